@@ -89,7 +89,8 @@ def showNotif : Notif → String
   | .ack (.pubcomp p) => s!"pubcomp {p}"
   | .ack (.suback p codes) =>
     s!"suback {p} {if codes.isEmpty then "-" else ",".intercalate (codes.map toString)}"
-  | .ack (.unsuback p) => s!"unsuback {p}"
+  | .ack (.unsuback p rs) =>
+    s!"unsuback {p} {if rs.isEmpty then "-" else String.ofList (rs.map (fun b => if b then 'S' else 'N'))}"
   | .ack .pingresp => "pingresp"
   | .unschedule => "unsched"
   | .disconnect r => s!"disconnect {r}"
@@ -137,7 +138,7 @@ def parseNotif (t : List String) : Option Notif :=
     let p ← nat? p
     let cs ← if codes = "-" then some [] else (codes.splitOn ",").mapM nat?
     some (.ack (.suback p cs))
-  | ["unsuback", p] => (nat? p).map (fun p => .ack (.unsuback p))
+  | ["unsuback", p, rs] => (nat? p).map (fun p => .ack (.unsuback p (if rs = "-" then [] else rs.toList.map (· == 'S'))))
   | ["pingresp"] => some (.ack .pingresp)
   | ["unsched"] => some .unschedule
   | ["disconnect", r] => some (.disconnect r)
